@@ -1,4 +1,4 @@
-import RosuModel.Model.DecodeLine
+import RosuModel.Model.DecodeBytes
 import RosuModel.Model.Wire
 
 /-
@@ -111,6 +111,12 @@ def handleDNUM (kind s : String) : String :=
   | "r32" => (match F32.parseRaw str with
       | some b => if F32.isNaN b then "ok:nan" else s!"ok:{b}" | none => "E")
   | _ => "bad-kind"
+
+/-- `DBYTES x<hex>`: `Beatmap::from_bytes` on raw bytes through the modelled reader -/
+def handleDBYTES (s : String) : String :=
+  match fromBytes (hexBytes (s.toList.drop 1)) with
+  | none => "ioerr"
+  | some d => dumpDecoded d
 
 def hexDigit (n : Nat) : Char := if n < 10 then Char.ofNat (48 + n) else Char.ofNat (87 + n)
 
